@@ -146,6 +146,10 @@ def _check_summary(sd, net, res):
                 res.violate("summary:wrong-label", label=b["label"], space=b["space"], state=stt, attractor_in_minimal_trap_space=in_min)
     for a, k in hits.items():
         if k == 0:
+            if any(sd.node_data(i)["skipped"] for i in sd.node_ids()) and net.is_maa(a):
+                # whether skip nodes can lose a motif-avoidant attractor is decided by C05 (known finding F5 there)
+                res.count("skipnode_maa_not_listed_deferred_to_C05")
+                continue
             res.violate("summary:attractor-not-listed", attractor=sorted(net.state_tuple(s) for s in a)[:3])
         elif k > 1:
             # documented exception (NodeData.skipped): with skip nodes a motif-avoidant attractor may be found in several of them
@@ -153,7 +157,37 @@ def _check_summary(sd, net, res):
             if has_skip and net.is_maa(a):
                 res.count("skipnode_maa_overcount_allowed")
                 continue
-            res.violate("summary:attractor-listed-more-than-once", times=k, attractor=sorted(net.state_tuple(s) for s in a)[:3])
+            # which nodes list it, and does one of them lack successors it has in the reference diagram (F10)?
+            from ..bb import full_state
+            from ..oracle import RefSD
+
+            spaces = sdcheck.node_spaces(sd, net)
+            reporters = [
+                i
+                for i in sd.node_ids()
+                if any(full_state(net, s) in a for s in (sd.node_data(i)["attractor_seeds"] or []) if full_state(net, s) is not None)
+            ]
+            ref = RefSD(net)
+            incomplete = any(
+                spaces[i] in ref.children and set(ref.children[spaces[i]]) - {spaces[j] for j in sd.dag.successors(i)} for i in reporters
+            )
+            res.violate(
+                "summary:attractor-listed-more-than-once",
+                times=k,
+                attractor=sorted(net.state_tuple(s) for s in a)[:3],
+                maa=net.is_maa(a),
+                reporter_with_incomplete_successors=bool(incomplete),
+            )
+
+
+def _trig_f10(case, detail):
+    """F10 (see C01): the history used expand_scc, the attractor listed twice is motif-avoidant and one of the nodes
+    listing it was marked expanded by sub-diagram attachment with only part of its successors"""
+    used_scc = any(s["op"] == "scc" for s in case["steps"])
+    return used_scc and detail.get("maa") is True and detail.get("reporter_with_incomplete_successors") is True
+
+
+TRIGGERS = {"scc_maa_under_partially_attached_node": _trig_f10}
 
 
 def run_case(case) -> Result:
